@@ -19,6 +19,7 @@ func init() {
 			"D3 iteration contract — in every ForEach each callback verdict immediately controls a return; the dense and paginated iterators skip empty entries; Bins() closes its channel on every exit; ForEach and Bins of the paginated store (twin implementations of the same merge of sorted buffer and pages) yield the same (index, count) terms under the same path conditions. "+
 			"D4 MinIndex/MaxIndex of the dense family and the sparse store return the undefined-index error exactly on the emptiness edge. "+
 			"D5 window loops of the dense read paths (ForEach, Bins, Encode, encodeSparsely) cover minIndex…maxIndex inclusive (ToProto/EncodeProto/encodeDensely/Reweight are checked by C09/C06/C16). "+
+			"D6 the window-moving primitives of the dense store as linear forms — shiftCounts copies bins[min−off … max−off] to +shift, resets exactly the vacated slots for either sign of the shift and updates offset −= shift; resetBins zeroes bins[from−off … to−off]; centerCounts stores the new window and shifts by offset + len/2 − (newMin + (newMax−newMin+1)/2); truncating integer division is only applied to widths and lengths. "+
 			"NOT DECIDED: that weights are never lost, duplicated or misattributed by normalize/extendRange/shiftCounts/page()/compact() — value statements about counts.",
 		"one obligation per store × entry point, per fold site, per callback call site, per window loop, per twin path",
 		false, runC04)
@@ -36,6 +37,8 @@ func runC04(c *Ctx) {
 	c04Iteration(c, impls)
 	c04Extremes(c, impls)
 	c04Windows(c)
+	c04Shift(c)
+	c05Halving(c, "C04-D6")
 }
 
 func isBinPart(t *Term, part string) bool {
@@ -605,4 +608,137 @@ func c04Windows(c *Ctx) {
 		}
 	}
 	c.R.floor(rule, "dense window loops", n, 4)
+}
+
+// c04Shift (C04-D6): the window-moving primitives of the dense store, as linear forms.
+// shiftCounts(shift): copy(bins[lo+shift:], bins[lo:hi+1]) with lo = minIndex−offset, hi = maxIndex−offset;
+// the vacated slots are reset — shift>0: indexes minIndex … minIndex+shift−1, else maxIndex+shift+1 … maxIndex;
+// offset −= shift. resetBins(from,to) zeroes bins[from−offset … to−offset]. centerCounts sets the new
+// window and shifts by offset + len/2 − mid with mid = newMin + (newMax−newMin+1)/2.
+func c04Shift(c *Ctx) {
+	const rule = "C04-D6"
+	dense := c.P.NamedType(pkgStore, "DenseStore")
+	recvF := func(name string) *Term { return mk("field", name, nil, mk("param", "0", nil)) }
+	lin := func(terms map[*Term]int, k int) *Linear {
+		l := &Linear{Coef: map[string]int{}, Atoms: map[string]*Term{}, Exact: true, Const: k}
+		for t, co := range terms {
+			l = linCombine(l, linearOf(t), co)
+		}
+		return l
+	}
+	minI, maxI, off := recvF(dr.minIndex), recvF(dr.maxIndex), recvF(dr.offset)
+	shift := mk("param", "1", nil)
+	eq := func(t *Term, want *Linear) bool { return t != nil && linCombineKey(linearOf(t), want) }
+	if f := c.P.DeclaredMethod(dense, "shiftCounts"); c.mustFunc(rule, f, "DenseStore.shiftCounts") {
+		paths, _ := exec(c, f, nil, 1)
+		for i, p := range paths {
+			pos, have := pathCond(p, func(t *Term) bool { return t.isBin("<") && t.Args[0].isConst("0") && t.Args[1].isParam(1) })
+			key := fmt.Sprintf("%s/path%d[%s]", funcName(f), i, pathSig(p))
+			if !have {
+				// shift ≥ 0 / other formulations: require the same facts per sign via another comparison
+				pos2, have2 := pathCond(p, func(t *Term) bool { return t.isBin("<=") && t.Args[0].isParam(1) && t.Args[1].isConst("0") })
+				if have2 {
+					pos, have = !pos2, true
+				}
+			}
+			var cp, rs *Term
+			var offStore *Term
+			for _, e := range p.Effects {
+				if e.Kind == "call" && e.Call.Op == "builtin" && e.Call.Sym == "copy" {
+					cp = e.Call
+				}
+				if e.Kind == "call" && isMethodCall(e.Call, "resetBins") {
+					rs = e.Call
+				}
+				if e.Kind == "store" && isRecvField(e.Addr, dr.offset) {
+					offStore = e.Val
+				}
+			}
+			ok := have && cp != nil && rs != nil && offStore != nil
+			found := "copy / resetBins / offset update not all present"
+			if ok {
+				dst, src := cp.Args[0], cp.Args[1]
+				okCopy := dst.Op == "slice" && src.Op == "slice" && isRecvField(dst.Args[0], dr.bins) && isRecvField(src.Args[0], dr.bins) &&
+					eq(dst.Args[1], lin(map[*Term]int{minI: 1, off: -1, shift: 1}, 0)) && dst.Args[2].Op == "none" &&
+					eq(src.Args[1], lin(map[*Term]int{minI: 1, off: -1}, 0)) && eq(src.Args[2], lin(map[*Term]int{maxI: 1, off: -1}, 1))
+				var okReset bool
+				if pos {
+					okReset = eq(rs.Args[1], lin(map[*Term]int{minI: 1}, 0)) && eq(rs.Args[2], lin(map[*Term]int{minI: 1, shift: 1}, -1))
+				} else {
+					okReset = eq(rs.Args[1], lin(map[*Term]int{maxI: 1, shift: 1}, 1)) && eq(rs.Args[2], lin(map[*Term]int{maxI: 1}, 0))
+				}
+				okOff := eq(offStore, lin(map[*Term]int{off: 1, shift: -1}, 0))
+				ok = okCopy && okReset && okOff
+				found = fmt.Sprintf("copy ok=%v reset ok=%v (shift>0: %v) offset ok=%v", okCopy, okReset, pos, okOff)
+			}
+			c.R.check(ok, rule, key, funcName(f), c.fpos(f), "window [min−off, max−off] copied to +shift, exactly the vacated slots reset, offset −= shift", found)
+		}
+		c.R.floor(rule, "shiftCounts paths", len(paths), 2)
+	}
+	if f := c.P.DeclaredMethod(dense, "resetBins"); c.mustFunc(rule, f, "DenseStore.resetBins") {
+		ok := false
+		found := "no counting loop"
+		for _, l := range countingLoops(c.P, f) {
+			tc := newTermCtx(c.P)
+			for b := range l.Blocks {
+				for _, in := range b.Instrs {
+					if st, isSt := in.(*ssa.Store); isSt {
+						at, vt := tc.Of(st.Addr), tc.Of(st.Val)
+						if at.Op == "index" && isRecvField(at.Args[0], dr.bins) && vt.isConst("0") {
+							fi, la, okR := elementRange(l, at.Args[1])
+							if okR {
+								p1, p2 := mk("param", "1", nil), mk("param", "2", nil)
+								ok = linCombineKey(fi, lin(map[*Term]int{p1: 1, off: -1}, 0)) && linCombineKey(la, lin(map[*Term]int{p2: 1, off: -1}, 0))
+								found = fi.Key() + " … " + la.Key()
+							}
+						}
+					}
+				}
+			}
+		}
+		c.R.check(ok, rule, funcName(f)+"/range", funcName(f), c.fpos(f), "zeroes exactly bins[from−offset … to−offset]", found)
+	}
+	if f := c.P.DeclaredMethod(dense, "centerCounts"); c.mustFunc(rule, f, "DenseStore.centerCounts") {
+		paths, _ := exec(c, f, nil, 1)
+		ok := len(paths) == 1
+		found := ""
+		if ok {
+			p := paths[0]
+			var sh *Term
+			newMin, newMax := false, false
+			for _, e := range p.Effects {
+				if e.Kind == "call" && isMethodCall(e.Call, "shiftCounts") {
+					sh = e.Call.Args[1]
+				}
+				if e.Kind == "store" && isRecvField(e.Addr, dr.minIndex) && e.Val.isParam(1) {
+					newMin = true
+				}
+				if e.Kind == "store" && isRecvField(e.Addr, dr.maxIndex) && e.Val.isParam(2) {
+					newMax = true
+				}
+			}
+			ok = sh != nil && newMin && newMax
+			if ok {
+				// shift = offset + len(bins)/2 − (newMin + (newMax−newMin+1)/2): linear over the two quotient atoms
+				l := linearOf(sh)
+				var qLen, qW bool
+				rest := &Linear{Coef: map[string]int{}, Atoms: map[string]*Term{}, Exact: true, Const: l.Const}
+				for k, co := range l.Coef {
+					at := l.Atoms[k]
+					switch {
+					case at.isBin("/") && at.Args[1].isConst("2") && at.Args[0].Op == "builtin" && at.Args[0].Sym == "len" && co == 1:
+						qLen = true
+					case at.isBin("/") && at.Args[1].isConst("2") && co == -1 && linCombineKey(linearOf(at.Args[0]), lin(map[*Term]int{mk("param", "2", nil): 1, mk("param", "1", nil): -1}, 1)):
+						qW = true
+					default:
+						rest.Coef[k] = co
+						rest.Atoms[k] = at
+					}
+				}
+				ok = qLen && qW && linCombineKey(rest, lin(map[*Term]int{off: 1, mk("param", "1", nil): -1}, 0))
+				found = "shift = " + l.Key()
+			}
+		}
+		c.R.check(ok, rule, funcName(f)+"/centre", funcName(f), c.fpos(f), "new window stored; shift = offset + len(bins)/2 − (newMin + (newMax−newMin+1)/2)", found)
+	}
 }
